@@ -320,10 +320,12 @@ package floatingip
 //@   ensures [C02,C04:bykey-only-own-entries] result1 == nil && forall j int :: 0 <= j && j < len(result0) ==> result0[j] == nil || (fresh(result0[j]) && infoOfKey(ci, result0[j], key))
 //@   ensures [C08:bykey-one-slot-per-range] len(ipranges) != 0 ==> len(result0) == len(ipranges)
 //@   ensures [C02:bykey-all-nonnil-without-ranges] len(ipranges) == 0 ==> forall j int :: 0 <= j && j < len(result0) ==> result0[j] != nil
+//@   ensures [C02,C04:bykey-complete-without-ranges] len(ipranges) == 0 ==> forall k string :: k in ci.allocatedFIPs && ci.allocatedFIPs[k].Key == key ==> exists j int :: 0 <= j && j < len(result0) && result0[j] != nil && ipstr(result0[j].FloatingIP.IP) == k
 //@   ensures result0 == nil || fresh(result0)
 //@   modifies fresh FloatingIPInfo.*, fresh nets.IPNet.*, fresh mapsof(map[string]sets.Empty), fresh elemsof(string), fresh elemsof(*FloatingIPInfo), fresh elemsof(byte)
 //@   loop 0,call:walkIPRanges#0/0,call:walkIPRanges#0/1 invariant sameElems(ipinfos) && ipinfos != nil && fresh(ipinfos) && len(ipinfos) == len(ipranges) && forall j int :: 0 <= j && j < len(ipinfos) ==> ipinfos[j] == nil || (fresh(ipinfos[j]) && infoOfKey(ci, ipinfos[j], key))
 //@   loop call:walkIPRanges#0/0,call:walkIPRanges#0/1 invariant 0 <= outer_idx && outer_idx < len(ipranges) && i == outer_idx
+//@   loop 1 invariant forall k string :: visited[k] && k in ci.allocatedFIPs && ci.allocatedFIPs[k].Key == key ==> exists j int :: 0 <= j && j < len(ipinfos) && ipinfos[j] != nil && ipstr(ipinfos[j].FloatingIP.IP) == k
 //@   loop 1 invariant sameElems(ipinfos) && (ipinfos == nil || fresh(ipinfos)) && forall j int :: 0 <= j && j < len(ipinfos) ==> ipinfos[j] != nil && fresh(ipinfos[j]) && infoOfKey(ci, ipinfos[j], key)
 
 // ---- ReleaseIPs: releases exactly the (ip, key) pairs that match; stops at the first store failure ----
@@ -359,6 +361,7 @@ package floatingip
 //@   ensures [C02,C04:bykey-only-own-entries] result1 == nil && forall j int :: 0 <= j && j < len(result0) ==> result0[j] == nil || (fresh(result0[j]) && infoOfKey(ci, result0[j], key))
 //@   ensures [C08:bykey-one-slot-per-range] len(ipranges) != 0 ==> len(result0) == len(ipranges)
 //@   ensures [C02:bykey-all-nonnil-without-ranges] len(ipranges) == 0 ==> forall j int :: 0 <= j && j < len(result0) ==> result0[j] != nil
+//@   ensures [C02,C04:bykey-complete-without-ranges] len(ipranges) == 0 ==> forall k string :: k in ci.allocatedFIPs && ci.allocatedFIPs[k].Key == key ==> exists j int :: 0 <= j && j < len(result0) && result0[j] != nil && ipstr(result0[j].FloatingIP.IP) == k
 //@   ensures result0 == nil || fresh(result0)
 //@   modifies fresh FloatingIPInfo.*, fresh nets.IPNet.*, fresh mapsof(map[string]sets.Empty), fresh elemsof(string), fresh elemsof(*FloatingIPInfo), fresh elemsof(byte)
 
